@@ -217,7 +217,7 @@ Proof.
 Qed.
 
 Lemma status_of_range e : (100 <= status_of e <= 999)%Z.
-Proof. apply errors_status_range. Qed.
+Proof. unfold status_of. destruct (e_meta_ok e); [apply errors_status_range|lia]. Qed.
 
 Lemma status_of_error_for_400 : status_of (error_for 400) = 400%Z. Proof. reflexivity. Qed.
 Lemma status_of_error_for_404 : status_of (error_for 404) = 404%Z. Proof. reflexivity. Qed.
@@ -231,8 +231,10 @@ Lemma status_of_method_not_allowed : status_of method_not_allowed = 405%Z. Proof
 Definition response_wf (r : response) : Prop :=
   (rs_status r = 0%Z \/ rs_status r = 201%Z) /\ (rs_errors r <> [] -> rs_data r = None).
 
+Definition response_marshals (r : response) : bool := data_marshals (rs_data r) && forallb e_meta_ok (rs_errors r).
+
 Definition final_status (r : response) : Z :=
-  if data_marshals (rs_data r) then
+  if response_marshals r then
     match rs_errors r with
     | [] => if (rs_status r =? 0)%Z then 200%Z else rs_status r
     | es => errors_status (map e_status es)
@@ -240,13 +242,13 @@ Definition final_status (r : response) : Z :=
   else 500%Z.
 
 Definition final_body (r : response) : wbody :=
-  if data_marshals (rs_data r) then
+  if response_marshals r then
     WDoc (Some version_1_1) (wdata_of (rs_data r)) (map e_status (rs_errors r)) (rs_links r)
   else WDoc (Some version_1_1) WAbsent [e_status (error_for 500)] [].
 
 Lemma final_status_range r : response_wf r -> (100 <= final_status r <= 999)%Z.
 Proof.
-  intros [[H|H] _]; unfold final_status; destruct (data_marshals (rs_data r)); try lia;
+  intros [[H|H] _]; unfold final_status; destruct (response_marshals r); try lia;
     destruct (rs_errors r); try apply errors_status_range; rewrite H; cbn; lia.
 Qed.
 
@@ -254,9 +256,10 @@ Lemma serve_http_eq pmt choose sch rq r :
   execute_request fixed pmt choose sch rq = Some r -> response_wf r ->
   serve_http fixed pmt choose sch rq = Resp (final_status r) media_type (final_body r) (rs_call r).
 Proof.
-  intros E W. unfold serve_http. rewrite E.
+  intros E W. unfold serve_http, finish. rewrite E.
   pose proof (final_status_range r W) as R. unfold final_status, final_body in *.
-  destruct (data_marshals (rs_data r)).
+  fold (response_marshals r).
+  destruct (response_marshals r).
   - assert (match rs_errors r with
             | [] => if (rs_status r =? 0)%Z then 200%Z else rs_status r
             | _ :: _ => first_status fixed (rs_errors r) 500
@@ -545,12 +548,15 @@ Section Refinement.
       decode_body, outcome_statuses.
     repeat (destr; red_all; fix_names).
     all: try discriminate; try congruence.
-    all: try (unfold response_wf, final_status, resp_status, resp_errors, resp_data;
-              cbn [rs_status rs_errors rs_data data_marshals map];
+    all: try (unfold response_wf, final_status, response_marshals, resp_status, resp_errors, resp_data;
+              cbn [rs_status rs_errors rs_data data_marshals map forallb andb];
               split; [split; [auto|intros; auto; congruence] | ]).
+    all: rewrite ?andb_true_r; unfold method_not_allowed; cbn [e_meta_ok error_for].
     all: repeat match goal with H : ?x = _ |- context [?x] => rewrite H end.
     all: try (left; reflexivity).
-    all: try (change (errors_status [e_status ?e]) with (status_of e); apply in_map; assumption).
+    all: try change (if e_meta_ok ?e then errors_status [e_status ?e] else 500%Z) with (status_of e).
+    all: try (left; reflexivity).
+    all: try (apply in_map; assumption).
     all: rewrite ?data_marshals_linkage; try (left; reflexivity).
     all: match goal with H : In (status_of ?e) ?l |- _ => exact H end.
   Qed.
@@ -644,7 +650,7 @@ Section Refinement.
     document_invariants (final_status r) media_type (Some (final_body r)) = None.
   Proof.
     intros [Wst Wd]. unfold document_invariants, final_status, final_body. rewrite bytes_eqb_refl. cbn [negb].
-    destruct (data_marshals (rs_data r)); [|reflexivity].
+    destruct (response_marshals r); [|reflexivity].
     destruct (rs_errors r) as [|e es] eqn:Es; cbn [map].
     - rewrite andb_false_r. destruct Wst as [-> | ->]; reflexivity.
     - rewrite (Wd ltac:(discriminate)). cbn [wdata_of data_present andb]. rewrite Z.eqb_refl. reflexivity.
@@ -661,7 +667,7 @@ Section Refinement.
     destruct (ref_status pmt sch rq) as [rule allowed]. cbn [snd] in S.
     assert (existsb (Z.eqb (final_status r)) allowed = true) as ->.
     { apply existsb_exists. exists (final_status r). split; [assumption|apply Z.eqb_refl]. }
-    cbn [negb]. unfold final_body. destruct (data_marshals (rs_data r)); [|reflexivity].
+    cbn [negb]. unfold final_body. destruct (response_marshals r); [|reflexivity].
     destruct (rs_errors r); [apply I; reflexivity|reflexivity].
   Qed.
 End Refinement.
@@ -753,7 +759,7 @@ Section Theorems.
       (data <> WAbsent -> errors = []).
   Proof.
     destruct served as (r & -> & [_ Wd] & _ & _). unfold final_body.
-    destruct (data_marshals (rs_data r)).
+    destruct (response_marshals r).
     - do 5 eexists. split; [reflexivity|]. intro Hd.
       destruct (rs_errors r) eqn:Es; [reflexivity|]. rewrite (Wd ltac:(discriminate)) in Hd. contradiction Hd. reflexivity.
     - do 5 eexists. split; [reflexivity|]. intro Hd. contradiction Hd. reflexivity.
@@ -765,7 +771,7 @@ Section Theorems.
     (errors <> [] -> st = errors_status errors) /\ (errors = [] -> (200 <= st < 300)%Z).
   Proof.
     destruct served as (r & -> & [Wst Wd] & _ & _). unfold final_body, final_status.
-    destruct (data_marshals (rs_data r)); intro H; inversion H; subst; clear H.
+    destruct (response_marshals r); intro H; inversion H; subst; clear H.
     - destruct (rs_errors r) as [|e es]; cbn [map]; split.
       + congruence.
       + intros _. destruct Wst as [-> | ->]; cbn; lia.
@@ -784,7 +790,7 @@ Section Theorems.
     answer = Resp st ct (WDoc v data [] top) c -> identity_and_links sch rq data top = None.
   Proof.
     destruct served as (r & -> & _ & _ & I). unfold final_body.
-    destruct (data_marshals (rs_data r)); intro H; inversion H; subst; clear H.
+    destruct (response_marshals r); intro H; inversion H; subst; clear H.
     apply I. destruct (rs_errors r); [reflexivity|discriminate].
   Qed.
 
@@ -931,7 +937,7 @@ Theorem linkage_malformed v :
 Proof. destruct v; intros []; reflexivity. Qed.
 
 (** ** Part 7: the three repaired defects, kept as witnesses against the pinned tree *)
-Definition toy_choose (l : list err) : err := hd {| e_status := [] |} l.
+Definition toy_choose (l : list err) : err := hd {| e_status := []; e_meta_ok := true |} l.
 Lemma toy_choose_ok : choose_ok toy_choose.
 Proof. intros e es. left. reflexivity. Qed.
 
@@ -966,9 +972,9 @@ Definition toy_things : rtype :=
                                                                 else None;
                                                     rel_meta := if N.eqb v 7 then [(b "count", true)] else [] |})
                                            (fun _ members => Ok (linkage_only (LMany members)))
-                                           (fun _ _ => Er {| e_status := b "403" |}) |} ];
+                                           (fun _ _ => Er {| e_status := b "403"; e_meta_ok := true |}) |} ];
      rt_get := Some (fun id => if bytes_eqb id (b "1") then HVal 1
-                               else if bytes_eqb id (b "bad") then HErr {| e_status := b "abc" |}
+                               else if bytes_eqb id (b "bad") then HErr {| e_status := b "abc"; e_meta_ok := true |}
                                else if bytes_eqb id (b "nil") then HNil
                                else if bytes_eqb id (b "c7") then HVal 7
                                else if bytes_eqb id (b "c9") then HVal 9
